@@ -40,6 +40,33 @@ type c10Case struct {
 var c10Queries = []string{"", " ", "a", "list files", "\x00", "ab\x00cd", "\x00\x00", "\xff\xfe", "caf\xe9", strings.Repeat("a", 1000), strings.Repeat("compress ", 111),
 	strings.Repeat("é", 500), "-", "??", "\n", "\t\t", "<script>", "$(rm -rf)", "İK", "ǅ", "á", "👍👍", "tar -x", "%s%n", "../../..", "\\", "\"", "'", "*", "[a", "(", "a|b", "x y z w v u t s r q p o n m"}
 
+// words of the command lines of the last generated 'entries' file (queries are derived from them)
+var c10Words []string
+
+// a query that the matcher can fully match inside one word of the database: the part of a word before a NUL,
+// a prefix, or a subsequence of it
+func c10Derived(r *rand.Rand) string {
+	if len(c10Words) == 0 {
+		return "ls"
+	}
+	w := c10Words[r.Intn(len(c10Words))]
+	if i := strings.IndexByte(w, 0); i > 0 && r.Intn(3) != 0 {
+		w = w[:i]
+	}
+	switch r.Intn(3) {
+	case 0:
+		if len(w) > 1 {
+			w = w[:1+r.Intn(len(w))]
+		}
+	case 1: // drop one inner character (typo by omission)
+		if len(w) > 2 {
+			k := 1 + r.Intn(len(w)-2)
+			w = w[:k] + w[k+1:]
+		}
+	}
+	return w
+}
+
 func c10Opts(r *rand.Rand) eOpts {
 	o := eOpts{}
 	o.Limit = []int{0, 1, 5, -1, -1 << 62, 1 << 31, 1 << 40, 1 << 62, 3074457345618258603}[r.Intn(9)]
@@ -81,6 +108,20 @@ func c10File(r *rand.Rand) (kind string, data []byte, wellFormed bool) {
 			case 4:
 				cmds[i].Command = ""
 				cmds[i].Description = ""
+			case 5: // NUL at the end of / inside the first word
+				w := strings.Fields(cmds[i].Command + " x")
+				w[0] = w[0] + "\x00"
+				cmds[i].Command = strings.Join(w, " ")
+			case 6:
+				if len(cmds[i].Command) > 2 {
+					cmds[i].Command = cmds[i].Command[:2] + "\x00" + cmds[i].Command[2:]
+				}
+			}
+		}
+		c10Words = nil
+		for i := range cmds {
+			for _, w := range strings.Fields(cmds[i].Command) {
+				c10Words = append(c10Words, w)
 			}
 		}
 		data, err := marshalCommands(cmds)
@@ -91,7 +132,10 @@ func c10File(r *rand.Rand) (kind string, data []byte, wellFormed bool) {
 	case x < 65: // valid YAML of another shape
 		shapes := []string{"a: b\n", "- 1\n- 2\n", "- [a, b]\n", "- command: [x, y]\n", "- command: {a: b}\n", "hello\n", "42\n", "- command: x\n  keywords: notalist\n",
 			"- command: x\n  pipeline: maybe\n", "- command: x\n  platform: 7\n", "- command: 5\n  description: true\n", "null\n", "---\n...\n", "- null\n", "- command: x\n  unknown_field: 1\n",
-			"&a [*a]\n", "- &x {command: a}\n- *x\n", "- command: !!binary aGk=\n"}
+			"&a [*a]\n", "- &x {command: a}\n- *x\n", "- command: !!binary aGk=\n",
+			// undecodable content whose own text looks like an operating-system error message
+			"- command: x\n  keywords: no such file or directory\n", "- command: x\n  keywords: permission denied\n", "!<no%20such%20file%20or%20directory> x\n",
+			"- command: x\n  pipeline: permission denied\n", "- command: [no such file or directory]\n"}
 		s := shapes[r.Intn(len(shapes))]
 		wf := s == "- command: x\n  unknown_field: 1\n" || s == "- command: 5\n  description: true\n" || s == "null\n" || s == "---\n...\n" || s == "- null\n" || s == "- &x {command: a}\n- *x\n" || s == "- command: !!binary aGk=\n"
 		return "shape", []byte(s), wf
@@ -254,6 +298,9 @@ func runC10(seed int64, n int, replay string, e *emitter) {
 			q := c10Queries[r.Intn(len(c10Queries))]
 			if r.Intn(3) == 0 {
 				q = eGenQuery(r, nil)
+			}
+			if c.FileKind == "entries" && r.Intn(3) == 0 {
+				q = c10Derived(r)
 			}
 			c.Calls = append(c.Calls, c10Call{Entry: entries[r.Intn(len(entries))], Query: ints(q), Opts: c10Opts(r)})
 		}
